@@ -1122,13 +1122,28 @@ func (w *World) execNext(fr *frame, in *ssa.Next) Value {
 			return Tuple{false, kz, vz}
 		}
 		pick := 0
-		if w.eng.cfg.MapOrderPerm > 0 && len(it.remain) <= w.eng.cfg.MapOrderPerm && len(it.remain) > 1 {
+		if w.eng.cfg.MapOrderPerm > 0 && len(it.remain) <= w.eng.cfg.MapOrderPerm && len(it.remain) > 1 && w.mapOrderHere(in) {
 			pick = w.choose(len(it.remain), DChoose)
 		}
 		e := it.remain[pick]
 		it.remain = append(it.remain[:pick:pick], it.remain[pick+1:]...)
 		return Tuple{true, e.k, copyVal(e.v)}
 	}
+}
+
+// mapOrderHere: with maporderin=<substrings> only map ranges inside functions whose name contains one of them have
+// their iteration order explored (the others iterate in insertion order).
+func (w *World) mapOrderHere(in *ssa.Next) bool {
+	if len(w.eng.cfg.MapOrderIn) == 0 {
+		return true
+	}
+	name := in.Parent().String()
+	for _, s := range w.eng.cfg.MapOrderIn {
+		if strings.Contains(name, s) {
+			return true
+		}
+	}
+	return false
 }
 
 func (w *World) mapHas(m *Map, e *mapEntry) bool {
